@@ -20,7 +20,8 @@ type Node struct {
 	Z    *int    `json:"z,omitempty"` // nil = auto
 	Op   float64 `json:"op,omitempty"`
 	Tr   *Tr     `json:"tr,omitempty"`
-	Ov   bool    `json:"ov,omitempty"` // overflow:hidden
+	Ov   bool    `json:"ov,omitempty"`  // overflow other than visible (clips the sub-tree to the padding box)
+	OvK  string  `json:"ovk,omitempty"` // keyword when Ov: "" = hidden | "auto" | "scroll" (CSS 2.1 §11.1.1: all three clip)
 	W    int     `json:"w,omitempty"`
 	H    int     `json:"h,omitempty"`
 	ML   int     `json:"ml,omitempty"`
@@ -33,6 +34,21 @@ type Node struct {
 	Text string  `json:"tx,omitempty"` // direct text, placed before the children
 	BB   bool    `json:"bb,omitempty"` // break-before:page (top-level in-flow blocks only): starts a new page
 	Kids []*Node `json:"k,omitempty"`
+}
+
+// ovKeyword is the specified value of `overflow` of a clipping box.
+func (n *Node) ovKeyword() string {
+	if n.OvK == "" {
+		return "hidden"
+	}
+	return n.OvK
+}
+
+// pickOvKind chooses the overflow keyword of a clipping box from its already drawn dimensions
+// (no extra draw from the rng: the trees of the case list stay what they were, only the keyword
+// varies): hidden / auto / scroll, one third each.
+func pickOvKind(n *Node) string {
+	return [3]string{"", "auto", "scroll"}[(n.ID+n.W/10+n.H/10)%3]
 }
 
 // Tr is `transform: translate(TXpx,TYpx) scale(SX,SY)` (axis-aligned on purpose: painted
@@ -190,7 +206,7 @@ func emitNode(sb *strings.Builder, n *Node) {
 		add("transform:translate(%gpx,%gpx) scale(%g,%g)", n.Tr.TX, n.Tr.TY, n.Tr.SX, n.Tr.SY)
 	}
 	if n.Ov {
-		add("overflow:hidden")
+		add("overflow:%s", n.ovKeyword())
 	}
 	if n.W > 0 {
 		add("width:%dpx", n.W)
